@@ -518,60 +518,7 @@ func runC17(c *Check, w *World) {
 		c.Decide(res[0].String() == want, "R17.5", fn, "pad-then-decode", "decodes the text left-padded to 2×size hex digits", "result is "+clip(res[0].String(), 200), w.Pos(f.Pos()))
 	}
 	// R17.6 HexInputToOCRA
-	if f := get("HexInputToOCRA"); f != nil {
-		fn := FuncName(f)
-		fs := fieldStores(tb, f, "OCRAInput")
-		order := []string{"Counter", "Challenge", "Password", "SessionInfo", "Timestamp"}
-		tableRows := hexFieldTable(tb, f) // the table-driven form: rows (text, &input.Field) walked by one loop
-		for i, fld := range order {
-			want := fmt.Sprintf("extract(0; call(encoding/hex.DecodeString; param(%s#%d)))", fn, i)
-			sts := fs[fld]
-			if len(sts) == 0 && tableRows != nil {
-				src, ok := tableRows[fld]
-				c.Decide(ok && src == fmt.Sprintf("param(%s#%d)", fn, i), "R17.6", fn, "field:"+fld, fld+" ← hex bytes of argument "+fmt.Sprint(i+1)+" (table row: the loop decodes row.text into *row.field)", fld+"'s table row decodes "+clip(src, 120)+", not argument "+fmt.Sprint(i+1), w.Pos(f.Pos()))
-				continue
-			}
-			if len(sts) == 0 {
-				c.Bad("R17.6", fn, "field:"+fld, "the "+fld+" field is never set", w.Pos(f.Pos()))
-				continue
-			}
-			for _, st := range sts {
-				vt := tb.Of(st.Val)
-				viaHelper := false
-				if vt.String() != want {
-					// through a decoding helper: every value the helper can yield is nil or the decode of this argument
-					nv := tb.Norm(vt)
-					okAlts, has := true, false
-					for _, a := range nv.Alts() {
-						switch {
-						case a.IsConst() && a.Sym == "nil":
-						case a.String() == want:
-							has = true
-						default:
-							okAlts = false
-						}
-					}
-					if okAlts && has {
-						viaHelper = true
-					}
-				}
-				c.Decide(vt.String() == want || viaHelper, "R17.6", fn, "field:"+fld, fld+" ← hex bytes of argument "+fmt.Sprint(i+1)+" (a fresh slice per field)", fld+" is set from "+clip(vt.String(), 200)+", not from hex.DecodeString of argument "+fmt.Sprint(i+1), w.InstrPos(st))
-			}
-		}
-		hitsD := tb.Reach(f, MatchCallee("encoding/hex.DecodeString"), 2)
-		n := len(hitsD)
-		gated := map[ssa.CallInstruction]bool{}
-		for _, h := range hitsD {
-			if !gated[h.Call] {
-				gated[h.Call] = true
-				gateDominates(c, w, "R17.6", h.Fn, h.Call, "hex.DecodeString")
-			}
-		}
-		if tableRows != nil && len(tableRows) == 5 && n == 1 {
-			n = 5 // one decode site walked over the five table rows
-		}
-		c.Decide(n == 5, "R17.6", fn, "five-decodes", "each of the five arguments is decoded once", fmt.Sprintf("%d hex decodes, expected five", n), w.Pos(f.Pos()))
-	}
+	ruleHexInput(c, w, tb, "R17.6")
 	// siblings agree
 	if len(sigs) >= 2 {
 		same := true
@@ -708,4 +655,142 @@ func shortByPol(cond, cnt *Term, L, W string, pol bool) bool {
 		}
 	}
 	return true
+}
+
+// ruleHexInput (R17.6; shared with C14 and C05, whose REST and hex-driven inputs pass through it): HexInputToOCRA
+// sets each of the five fields from the hex bytes of its own argument — a fresh slice per field, nil for an empty
+// argument — with every decode error tested.
+func ruleHexInput(c *Check, w *World, tb *TB, rule string) {
+	f := w.Func(OtpPath, "HexInputToOCRA")
+	if f == nil {
+		c.Unk(rule, "otp", "hex-input", "HexInputToOCRA was not found", "")
+		return
+	}
+	fn := FuncName(f)
+	fs := fieldStores(tb, f, "OCRAInput")
+	order := []string{"Counter", "Challenge", "Password", "SessionInfo", "Timestamp"}
+	tableRows := hexFieldTable(tb, f) // the table-driven form: rows (text, &input.Field) walked by one loop
+	if tableRows == nil {
+		tableRows = hexFieldViaDst(w, tb, f) // a decoding helper that is handed the field's address
+	}
+	for i, fld := range order {
+		want := fmt.Sprintf("extract(0; call(encoding/hex.DecodeString; param(%s#%d)))", fn, i)
+		sts := fs[fld]
+		if len(sts) == 0 && tableRows != nil {
+			src, ok := tableRows[fld]
+			c.Decide(ok && src == fmt.Sprintf("param(%s#%d)", fn, i), rule, fn, "field:"+fld, fld+" ← hex bytes of argument "+fmt.Sprint(i+1)+" (table row: the loop decodes row.text into *row.field)", fld+"'s table row decodes "+clip(src, 120)+", not argument "+fmt.Sprint(i+1), w.Pos(f.Pos()))
+			continue
+		}
+		if len(sts) == 0 {
+			c.Bad(rule, fn, "field:"+fld, "the "+fld+" field is never set", w.Pos(f.Pos()))
+			continue
+		}
+		for _, st := range sts {
+			vt := tb.Of(st.Val)
+			viaHelper := false
+			if vt.String() != want {
+				// through a decoding helper: every value the helper can yield is nil or the decode of this argument
+				nv := tb.Norm(vt)
+				okAlts, has := true, false
+				for _, a := range nv.Alts() {
+					switch {
+					case a.IsConst() && a.Sym == "nil":
+					case a.String() == want:
+						has = true
+					default:
+						okAlts = false
+					}
+				}
+				if okAlts && has {
+					viaHelper = true
+				}
+			}
+			c.Decide(vt.String() == want || viaHelper, rule, fn, "field:"+fld, fld+" ← hex bytes of argument "+fmt.Sprint(i+1)+" (a fresh slice per field)", fld+" is set from "+clip(vt.String(), 200)+", not from hex.DecodeString of argument "+fmt.Sprint(i+1), w.InstrPos(st))
+		}
+	}
+	hitsD := tb.Reach(f, MatchCallee("encoding/hex.DecodeString"), 2)
+	n := len(hitsD)
+	gated := map[ssa.CallInstruction]bool{}
+	for _, h := range hitsD {
+		if !gated[h.Call] {
+			gated[h.Call] = true
+			gateDominates(c, w, rule, h.Fn, h.Call, "hex.DecodeString")
+		}
+	}
+	if tableRows != nil && len(tableRows) == 5 && n == 1 {
+		n = 5 // one decode site walked over the five table rows
+	}
+	c.Decide(n == 5, rule, fn, "five-decodes", "each of the five arguments is decoded once", fmt.Sprintf("%d hex decodes, expected five", n), w.Pos(f.Pos()))
+
+}
+
+// hexFieldViaDst: fields of the local OCRAInput that are filled by a module helper g(…, text, &input.F): every store
+// g makes through that pointer writes extract(0; hex.DecodeString(text)) of its own text parameter, and g stores
+// nothing else through it. Returns field → the caller-side term of the text argument; nil when there is no such call.
+func hexFieldViaDst(w *World, tb *TB, f *ssa.Function) map[string]string {
+	res := map[string]string{}
+	bad := false
+	EachInstr(f, func(in ssa.Instruction) {
+		cl, ok := in.(*ssa.Call)
+		if !ok {
+			return
+		}
+		g := cl.Call.StaticCallee()
+		if g == nil || !w.InModule(g) || g.Blocks == nil {
+			return
+		}
+		for j, a := range cl.Call.Args {
+			fa, ok := a.(*ssa.FieldAddr)
+			if !ok || j >= len(g.Params) {
+				continue
+			}
+			if _, isLocal := fa.X.(*ssa.Alloc); !isLocal || !strings.HasSuffix(fa.X.Type().String(), "OCRAInput") {
+				continue
+			}
+			fld := fieldName(fa.X.Type(), fa.Field)
+			dst := g.Params[j]
+			// the stores through dst inside g
+			textIdx := -1
+			okStores, n := true, 0
+			if dst.Referrers() != nil {
+				for _, r := range *dst.Referrers() {
+					switch x := r.(type) {
+					case *ssa.Store:
+						if x.Addr != ssa.Value(dst) {
+							okStores = false
+							continue
+						}
+						n++
+						vt := tb.Of(x.Val)
+						if vt.Op == "extract" && vt.Sym == "0" && vt.Args[0].Op == "call" && vt.Args[0].Sym == "encoding/hex.DecodeString" && len(vt.Args[0].Args) == 1 && vt.Args[0].Args[0].Op == "param" {
+							k := paramIdxOfTerm(vt.Args[0].Args[0])
+							if textIdx >= 0 && textIdx != k {
+								okStores = false
+							}
+							textIdx = k
+						} else {
+							okStores = false
+						}
+					case *ssa.DebugRef:
+					case *ssa.UnOp:
+						// reading *dst is harmless
+					default:
+						okStores = false
+					}
+				}
+			}
+			if !okStores || n == 0 || textIdx < 0 || textIdx >= len(cl.Call.Args) {
+				bad = true
+				continue
+			}
+			if _, dup := res[fld]; dup {
+				bad = true
+			}
+			res[fld] = tb.Of(cl.Call.Args[textIdx]).String()
+		}
+	})
+	if bad || len(res) == 0 {
+		return nil
+	}
+	return res
 }
